@@ -9,6 +9,7 @@ use std::cell::RefCell;
 use std::sync::Arc;
 
 pub mod frim;
+pub mod codec;
 
 /// A pause-point handler installed per thread by a harness.
 pub type PointFn = Arc<dyn Fn(&'static str) + Send + Sync>;
